@@ -363,7 +363,9 @@ func laCheck(k kase) (v verdict) {
 		return
 	}
 	if derr != nil {
-		v.add(pfx+"own-decode/error", "%s; loong64.Decode: %v", desc, derr)
+		if !contains(indep, "op") && !contains(indep, "undecodable") {
+			v.add(pfx+"own-decode/error", "%s; loong64.Decode: %v", desc, derr)
+		}
 		return
 	}
 	if das != as {
